@@ -4,7 +4,8 @@ A line `<op line> @w` is the same mathematical operation as `<op line>`, evaluat
 `warm_constructors()`: every library object constructed while the line is evaluated — the operands the harness builds
 AND the intermediate / result objects the library builds itself — is asked every argument-less public question
 (properties, data attributes, methods callable without arguments, str / repr / hash / len) right after its constructor
-returns.  Lazily filled fields, `lru_cache`d methods, flag-switched code paths and shared containers are therefore in
+returns, and every list / dict / set that a METHOD returned (exported dictionaries, qualifier exports) is edited in place
+by the "caller" (`_scribble`).  Lazily filled fields, `lru_cache`d methods, flag-switched code paths and shared containers are therefore in
 their "used" state before the operation's own question is asked.  The Lean drivers get the line WITHOUT the marker
 (the model and the specification are functions of the mathematical operands), so any influence of the history on the
 real answer shows up as a disagreement and as a failed verdict.
@@ -35,6 +36,33 @@ def _classes():
             Sequence]
 
 
+_SENTINEL = "\u2620scribbled-by-caller"
+
+
+def _scribble(v, depth=0):
+    """A caller that edits what a method RETURNED: every list / dict / set inside the returned plain data (exported
+    dictionaries, qualifier exports, lists of rows) is changed in place.  The data is the caller's own copy - unless the
+    library handed out a container it still uses itself, in which case a later answer changes (seen as a disagreement
+    by whichever property observes it).  Data ATTRIBUTES and properties are not touched: editing those is editing the
+    object."""
+    if depth > 6:
+        return
+    if isinstance(v, dict):
+        for x in list(v.values()):
+            _scribble(x, depth + 1)
+        try:
+            v[_SENTINEL] = [_SENTINEL]
+        except Exception:  # noqa
+            pass
+    elif isinstance(v, list):
+        for x in list(v):
+            _scribble(x, depth + 1)
+        v.append(_SENTINEL)
+        v.reverse()
+    elif isinstance(v, set):
+        v.add(_SENTINEL)
+
+
 def ask_everything(obj):
     """every argument-less public question, answers discarded, exceptions ignored (a question an object cannot answer,
     e.g. a sequence accessor without sequence, raises the same way for a fresh object)"""
@@ -52,6 +80,8 @@ def ask_everything(obj):
                 for i, _ in enumerate(v):
                     if i > 500:
                         break
+            elif how != "prop":
+                _scribble(v)                    # plain data handed out by a METHOD belongs to the caller
         except RecursionError:
             pass
         except Exception:  # noqa
